@@ -611,7 +611,7 @@ class FnSplicer:
         lblocks = []
         i = body_open + 1
         while i < body_close - 2:
-            if toks[i].kind == 'lifetime' and toks[i + 1].text == ':' and toks[i + 2].text == '{' and not excluded(i):
+            if toks[i].kind == 'lifetime' and toks[i + 1].text == ':' and toks[i + 2].text == '{' and not excluded(i) and not in_rewritten(i):
                 lblocks.append(i)
             i += 1
         lbspecs = spec.get('labeled_blocks') or {}
